@@ -53,6 +53,9 @@ func Each(tier string, shard, nShards, stride int, f func(Set)) {
 	for _, s := range prefixSets() {
 		emit(s)
 	}
+	for _, s := range lateRevisionSets() {
+		emit(s)
+	}
 	names, files := c05.Scenarios()
 	for j := range names {
 		emit(Set{"conflict", names[j], files[j]})
@@ -83,5 +86,41 @@ func prefixSets() []Set {
 			{Name: "n.yang", Text: `module n { namespace "urn:n"; prefix n; import m { prefix m; } augment /m:top/m:ch/m:x/m:x { choice inner { leaf il { type string; } } } augment /m:top/m:ch { leaf late { type string; } } }`}}},
 		Set{"late", "not-supported-rpc-io", []dump.File{{Name: "m.yang", Text: `module m { namespace "urn:m"; prefix m; rpc r { input { leaf i { type string; } } output { leaf o { type string; } } } container c { action act { input { leaf ai { type string; } } } } deviation /m:r/m:input { deviate not-supported; } deviation /m:c/m:act/m:input { deviate not-supported; } }`}}},
 	)
+	return out
+}
+
+// lateRevisionSets: problems that only exist after an augment was merged or when a deviation is
+// applied, aimed at the newest or at an older revision of a module of which one or two revisions are
+// loaded (the importer selects with revision-date or takes what it gets).
+func lateRevisionSets() []Set {
+	var out []Set
+	base := func(rev, extra string) dump.File {
+		return dump.File{Name: "base@" + rev + ".yang", Text: `module base { namespace "urn:base"; prefix base; revision ` + rev + `; container c { leaf x { type string; } ` + extra + ` } choice ch { leaf s { type string; } } rpc r { input { leaf i { type string; } } } }`}
+	}
+	old, new := base("2020-01-01", ""), base("2021-06-06", "leaf y { type string; }")
+	problems := []struct{ name, body string }{
+		{"none", `augment /b:c { leaf fine { type string; } }`},
+		{"collision", `augment /b:c { leaf x { type string; } }`},
+		{"bad-body", `augment /b:c { leaf z { type u:nosuch; } }`},
+		{"two-augments-one-name", `augment /b:c { leaf n { type string; } } augment /b:c { leaf n { type int8; } }`},
+		{"choice-collision", `augment /b:ch { leaf s { type string; } }`},
+		{"rpc-input-collision", `augment /b:r/b:input { leaf i { type string; } }`},
+		{"deviation-missing-target", `deviation /b:c/b:nope { deviate not-supported; }`},
+		{"deviation-bad-type", `deviation /b:c/b:x { deviate replace { type u:nosuch; } }`},
+	}
+	for _, loaded := range []struct {
+		name  string
+		files []dump.File
+	}{{"old+new", []dump.File{old, new}}, {"new+old", []dump.File{new, old}}, {"old", []dump.File{old}}} {
+		for _, sel := range []struct{ name, stmt string }{{"unpinned", ""}, {"pinned-old", " revision-date 2020-01-01;"}, {"pinned-new", " revision-date 2021-06-06;"}} {
+			if sel.name == "pinned-new" && loaded.name == "old" {
+				continue
+			}
+			for _, p := range problems {
+				user := dump.File{Name: "user.yang", Text: `module user { namespace "urn:user"; prefix u; import base { prefix b;` + sel.stmt + ` } ` + p.body + ` }`}
+				out = append(out, Set{"late", fmt.Sprintf("late-revision loaded=%s import=%s problem=%s", loaded.name, sel.name, p.name), append(append([]dump.File{}, loaded.files...), user)})
+			}
+		}
+	}
 	return out
 }
